@@ -29,6 +29,8 @@ CONSTANTS Gen,        \* "none": exhaustive check; "trans": hist = last transiti
                       \* when it reaches MaxDepth (used with -simulate for long random behaviours)
           MaxDepth,   \* bound on history length (CONSTRAINT)
           WithLost,   \* TRUE: allow writes through alias components (exhibits the known C16 defect)
+          Skip,       \* objects left out of this run (never inserted, never used as root): slices of the universe
+          Seeds,      \* which initial trees to start from: subset of {1, 2, 3}
           TopDown     \* TRUE: histories build the tree top-down (insert only into attached containers,
                       \*       only values without members); FALSE: sub-trees may be assembled detached and
                       \*       attached / moved later (exhibits stale back-reference paths)
@@ -131,22 +133,18 @@ TargetSet(at, ap, br, a, v, pa, pv) ==
 Snapshot(m, p, at, ap, br, out) ==
   [members |-> m, parent |-> p, atarget |-> at, atpath |-> ap,
    backrefs |-> [o \in Obj |-> [i \in 1..Len(br[o]) |-> [path |-> br[o][i][1], alias |-> br[o][i][2]]]], outcome |-> out]
-Log(op, m, p, at, ap, br, out) ==
+\* `rare` tells whether the call exercised a rarely reached branch (re-targeting loop with something to
+\* re-target, stub merge, a refused re-targeting); Gen = "rare" prints only those transitions and is
+\* used with VIEW TreeView at depths where printing every transition would be too much.
+LogR(op, m, p, at, ap, br, out, rare) ==
   /\ lastop' = op
   /\ hist' = CASE Gen = "hist" -> Append(hist, [op |-> op, post |-> Snapshot(m, p, at, ap, br, out)])
-               [] Gen = "trans" -> <<[pre |-> Snapshot(members, parent, atarget, atpath, backrefs, outcome),
-                                     op |-> op, post |-> Snapshot(m, p, at, ap, br, out)]>>
-               \* "rare": like "trans" but only for calls that exercise the rarely reached branches (the
-               \* re-targeting loop with something to re-target, the stub merge, refusals); used with
-               \* VIEW TreeView at depths where printing every transition would be too much
-               [] Gen = "rare" -> IF /\ op.name \in {"set_member", "set_target", "resolve"}
-                                     /\ \/ at # atarget \/ br # backrefs \/ out = "Cyclic"
-                                        \/ (op.name = "set_member" /\ out = "ok" /\ \E o \in Obj : Len(backrefs[o]) >= 2)
-                                        \/ (op.name = "set_member" /\ out = "ok" /\ KindOf[op.value] = "module" /\ m[COLL]["m"] # Nil /\ members[COLL]["m"] # Nil)
-                                  THEN <<[pre |-> Snapshot(members, parent, atarget, atpath, backrefs, outcome),
-                                          op |-> op, post |-> Snapshot(m, p, at, ap, br, out)]>>
-                                  ELSE <<>>
+               [] Gen = "trans" \/ (Gen = "rare" /\ rare) ->
+                     <<[pre |-> Snapshot(members, parent, atarget, atpath, backrefs, outcome),
+                        op |-> op, post |-> Snapshot(m, p, at, ap, br, out)]>>
+               [] Gen = "rare" -> <<>>
                [] OTHER -> hist
+Log(op, m, p, at, ap, br, out) == LogR(op, m, p, at, ap, br, out, FALSE)
 
 Fail(op, err) ==
   /\ UNCHANGED treevars /\ outcome' = err
@@ -221,7 +219,7 @@ Place(op, c, v, producer) ==
      /\ (IF merging THEN MergeLegal(keep, stubs) ELSE TRUE)
      /\ members' = m2 /\ parent' = p2 /\ atarget' = r1[1] /\ atpath' = r1[2] /\ backrefs' = br2
      /\ outcome' = "ok"
-     /\ Log(op, m2, p2, r1[1], r1[2], br2, "ok")
+     /\ LogR(op, m2, p2, r1[1], r1[2], br2, "ok", Len(refs) >= 1 \/ merging)
 
 \* a write whose key crosses an alias component: Alias.set_member works on the dictionary freshly
 \* built by Alias.members; the value gets the alias as parent and is stored nowhere
@@ -234,7 +232,8 @@ SetOp(producer) ==
   \E root \in Cont, v \in Obj, prefix \in {<<>>} \cup {<<n>> : n \in Names} \cup {<<n1, n2>> : n1 \in Names, n2 \in Names} :
     LET op == [name |-> IF producer THEN "set_member" ELSE "setitem", root |-> root, key |-> prefix \o <<NameOf[v]>>, value |-> v]
         w == Lookup(root, prefix)
-    IN /\ Detached(v) /\ SimpleAlias(v)
+    IN /\ v \notin Skip /\ root \notin Skip
+       /\ Detached(v) /\ SimpleAlias(v)
        /\ (root \in {COLL, "m1", "k1"} \/ IsMember(root))                \* attached roots and a few detached ones
        /\ \/ /\ w.err = "KeyError"                                       \* missing prefix component
              /\ prefix \in {<<"x">>, <<"K">>, <<"m", "K">>}                 \* (keep the failing branch small:
@@ -272,7 +271,8 @@ SetTarget ==
   \E a \in AliasObj, v \in Obj :
     LET op == [name |-> "set_target", root |-> a, key |-> <<>>, value |-> v]
         r == TargetSet(atarget, atpath, backrefs, a, v, Path(a), Path(v))
-    IN /\ SimpleAlias(v) /\ (IF KindOf[v] = "alias" /\ v # a THEN atarget[v] # Nil ELSE TRUE)
+    IN /\ a \notin Skip /\ v \notin Skip
+       /\ SimpleAlias(v) /\ (IF KindOf[v] = "alias" /\ v # a THEN atarget[v] # Nil ELSE TRUE)
        \* the clean domain sets the target of an unresolved alias only: re-targeting leaves a stale
        \* back-reference on the old target (a later replacement of that old target then hijacks the
        \* alias), and re-targeting the middle link of a chain leaves the outer alias listed on the
@@ -288,7 +288,7 @@ Resolve ==
   \E a \in AliasObj :
     LET op == [name |-> "resolve", root |-> a, key |-> <<>>, value |-> Nil]
         w == Lookup(COLL, atpath[a])
-    IN /\ Attached(a)
+    IN /\ a \notin Skip /\ Attached(a)
        \* clean domain: first resolution only (re-resolving a link leaves stale back-references, and
        \* re-resolving the middle link of a chain leaves the outer alias listed on the old target)
        /\ (TopDown => (atarget[a] = Nil /\ \A b \in AliasObj : atarget[b] # a))
@@ -316,11 +316,11 @@ Seed3Members == [SeedMembers EXCEPT ![COLL]["n"] = "n1", !["n1"]["K"] = "a3"]
 Seed3Parent == [SeedParent EXCEPT !["a3"] = "n1"]
 
 Init ==
-  /\ \/ members = EmptyMembers /\ parent = [o \in Obj |-> Nil] /\ atarget = [a \in AliasObj |-> Nil]
+  /\ \/ 1 \in Seeds /\ members = EmptyMembers /\ parent = [o \in Obj |-> Nil] /\ atarget = [a \in AliasObj |-> Nil]
         /\ backrefs = [o \in Obj |-> <<>>]
-     \/ members = SeedMembers /\ parent = SeedParent /\ atarget = [a \in AliasObj |-> Nil]
+     \/ 2 \in Seeds /\ members = SeedMembers /\ parent = SeedParent /\ atarget = [a \in AliasObj |-> Nil]
         /\ backrefs = [o \in Obj |-> <<>>]
-     \/ members = Seed3Members /\ parent = Seed3Parent
+     \/ 3 \in Seeds /\ members = Seed3Members /\ parent = Seed3Parent
         /\ atarget = [a \in AliasObj |-> IF a \in {"a1", "a3"} THEN "k1" ELSE Nil]
         /\ backrefs = [o \in Obj |-> IF o = "k1" THEN << <<<<"n", "K">>, "a3">>, <<<<"m", "a">>, "a1">> >> ELSE <<>>]
   /\ atpath \in TargetPaths
